@@ -187,6 +187,9 @@ class Program:
                 with warnings.catch_warnings():
                     warnings.simplefilter("ignore")
                     tree = ast.parse(src, filename=rel)
+                    if os.environ.get("STVERIF_NORMALISE", "1") != "0":
+                        from .normalise import normalise
+                        tree = normalise(tree)
             except SyntaxError as e:
                 self.parse_errors.append((rel, str(e)))
                 continue
